@@ -282,14 +282,14 @@ DEC_NEG = [("NoEofProbe", ["AcceptMeansComplete"]), ("EofAtBoundaryOk", ["Accept
            ("HeaderNotChecked", ["AcceptMeansComplete", "ReleasedIsAuthenticPrefix", "WrongKeyReleasesNothing"])]
 
 
-def bitflip_scenarios(api, aad, chunks, prefix, step=1):
+def bitflip_scenarios(api, aad, chunks, prefix, step=1, hstep=1):
     """Every single-bit change of a complete file (C03: every bit outside the advisory counter
     field is rejected; a flipped counter bit may be accepted)."""
     hreal = st.HDR_REAL[api]
     srcs = [{"chunks": chunks, "kseed": 1, "pseed": 1}]
     out = []
-    # header bits
-    for bit in range(0, hreal * 8, step):
+    # header bits: every one, on every tier (each field of the header has its own way of being authenticated)
+    for bit in range(0, hreal * 8, hstep):
         out.append({"op": "dec", "api": api, "aad": aad, "cs": 65536 if api != "chunks" else max(chunks + [1]),
                     "srcs": srcs, "file": {"hsrc": 0, "hdr": "flip:%d" % bit,
                                            "recs": [{"src": 0, "idx": i} for i in range(len(chunks))],
@@ -481,6 +481,12 @@ def c04(pid, tier, seed, selftest=False):
         checks_cli.process_level_stream(rep, pid, tpl, seed)
     nwrites = sum(1 for r in runs for e in r["events"] if e["ev"] == "write")
     rep.extra["write_events_checked"] = nwrites
+    # at the tool: `kestrel decrypt` / `password decrypt` never exit 0 unless the final chunk verified AND was delivered
+    # (damaged later chunks, appended data, a full device, a reader that has gone away)
+    import checks_cli
+    checks_cli.tool_clause(rep, pid, tpl, seed, ["decrypt", "pass_decrypt"],
+                           ["corrupt_first_chunk", "corrupt_later_chunk", "truncated_later_chunk", "appended_data", "stdout_closed", "stdout_full",
+                            "output_device_full"], "C04_")
     return finish(rep, runs)
 
 
@@ -590,6 +596,11 @@ def c10(pid, tier, seed, selftest=False):
         rep.sample(s)
     runs = st.run_and_validate(rep, pid, "faults", scenarios, tpl, seed, nproc=16)
     rep.extra["runs_ending_in_error"] = sum(1 for r in runs if r["end"] and r["end"]["res"] != "ok")
+    # at the tool: an output that cannot be written (full device, missing directory, reader gone) or an input that
+    # cannot be read ends every command with exit 1 and an error message
+    import checks_cli
+    checks_cli.tool_clause(rep, pid, tpl, seed, ["encrypt", "decrypt", "pass_encrypt", "pass_decrypt", "key_generate"],
+                           ["stdout_closed", "stdout_full", "output_device_full", "output_dir_missing", "input_read_error"], "C10_")
     return finish(rep, runs)
 
 
@@ -653,4 +664,7 @@ def c11(pid, tier, seed, selftest=False):
             peak = max(peak, e["heap"])
     rep.extra["max_heap_peak_bytes"] = peak
     rep.extra["largest_input_bytes"] = max(s.get("plen", 0) for s in scenarios if "plen" in s)
+    # the lag clause at the process boundary: the tool's own reads and writes (strace) on files of many small chunks
+    import checks_cli
+    checks_cli.process_level_lag(rep, pid, tpl, seed)
     return finish(rep, runs)
